@@ -505,8 +505,17 @@ def _lv_kwargs(fm, case=None):
     return kw, ("u_" if prefix is None else prefix, kw.get("start", 0), kw.get("tag") or "hidden")
 
 
+def _assign(c):
+    """derive the forms of a case; forms a corpus witness was recorded with (and that are still legal) are kept"""
+    rec = dict(c.get("forms") or {})
+    sl = _slots(c)
+    F.assign(c, sl)
+    c["forms"].update({k: v for k, v in rec.items() if k in sl and v in sl[k]})
+    return c
+
+
 def cases(rng: random.Random, tier: str):
-    return [F.assign(c, _slots(c)) for c in _cases(rng, tier)]
+    return [_assign(c) for c in _cases(rng, tier)]
 
 
 def _cases(rng: random.Random, tier: str):
